@@ -262,3 +262,60 @@ func HarnessC09UnaryDeclaredLength() {
 		check(allocatedBytes()-before < 1<<20, "buffers are not sized from a declared length above the read limit")
 	}
 }
+
+// HarnessC09ClientStreamLimit: the client's read limit through the whole
+// stack, for streamed responses of all three protocols, compressed or not: a
+// response message above the limit - on the wire or once decompressed - is
+// never delivered to the application and fails the call; one within it is
+// delivered intact.
+//
+//verif:harness property=C09 stubs=json,wire shard=proto:3
+func HarnessC09ClientStreamLimit() {
+	const M = 48 // above the size of the protocols' own final envelopes
+	proto := nondetChoice("proto", 3)
+	compressed := nondetBool("compressed")
+	n := M - 2 + nondetChoice("size", 5) // 46..50
+	fill := nondetByte("fill")
+	msg := make([]byte, n)
+	for i := range msg {
+		msg[i] = fill
+	}
+	minBytes := 1 << 20
+	if compressed {
+		minBytes = 0
+	}
+	handler := NewServerStreamHandler("/pkg.Svc/Method", func(ctx context.Context, req *Request[[]byte], s *ServerStream[[]byte]) error {
+		out := append([]byte{}, msg...)
+		return s.Send(&out)
+	}, WithCodec(&stackCodec{}), WithCompressMinBytes(minBytes), c08XorHandler("gzip"))
+	client := NewClient[[]byte, []byte](&stackTransport{handler: handler}, stackURL, stackClientOptions(proto, c08XorClient("gzip"), WithReadMaxBytes(M))...)
+	in := []byte{1}
+	stream, err := client.CallServerStream(context.Background(), NewRequest(&in))
+	check(err == nil, "starting the stream succeeds")
+	if err != nil {
+		return
+	}
+	delivered := 0
+	for stream.Receive() {
+		delivered++
+		check(len(*stream.Msg()) <= M, "the application never receives a message above the client's read limit")
+		check(bytesEq(*stream.Msg(), msg), "a delivered message is intact")
+		if delivered > 2 {
+			break
+		}
+	}
+	serr := stream.Err()
+	_ = stream.Close()
+	wire := n
+	if compressed {
+		wire = n + 1
+	}
+	if n > M || wire > M {
+		check(delivered == 0 && serr != nil, "a response message above the read limit (on the wire or decompressed) fails the call")
+		if serr != nil {
+			check(CodeOf(serr) == CodeInvalidArgument || CodeOf(serr) == CodeResourceExhausted, "an oversize message is reported as invalid_argument or resource_exhausted")
+		}
+	} else {
+		check(delivered == 1 && serr == nil, "a response message within the read limit is delivered")
+	}
+}
